@@ -270,15 +270,27 @@ def ineq_table(ctx: Ctx) -> dict:
         if any(st[0] == "raise" for st in res):
             out[op] = ("raise", None)
             continue
-        swapped = sum(1 for st in res if st[0] == "mset" and set(st[1]) == {("p", 0), ("p", 1)} and st[1] != st[2]) % 2 == 1
-        final = None
-        env = {("p", 2): k_str(op)}
+        # what the two sides and the operator are when they are stored (whatever way the exchange is written: a swap of two
+        # names, a three-way assignment, fresh locals)
+        env = {("p", 0): ("p", 0), ("p", 1): ("p", 1), ("p", 2): k_str(op)}
+        lhs_val = final = None
         for st in res:
-            if st[0] == "set" and st[1] == ("p", 2):
-                env[("p", 2)] = st[2]
-            if st[0] == "set" and st[1] == ("a", ("self",), "op"):
-                v = st[2]
-                final = env.get(v, v) if v == ("p", 2) else v
+            if st[0] == "set" and len(st) == 3 and st[1][0] in ("p", "v"):
+                env[st[1]] = Sigma(raw_subst=env).apply(st[2])
+            elif st[0] == "mset":
+                vals = [Sigma(raw_subst=env).apply(v) for v in st[2]]
+                for t, v in zip(st[1], vals):
+                    if t[0] in ("p", "v"):
+                        env[t] = v
+            elif st[0] == "set" and st[1] == ("a", ("self",), "op"):
+                final = Sigma(raw_subst=env).apply(st[2])
+            elif st[0] == "set" and st[1] == ("a", ("self",), "lhs") and lhs_val is None:
+                lhs_val = Sigma(raw_subst=env).apply(st[2])
+        swapped = None
+        if lhs_val == (to_poly(("p", 0)) - to_poly(("p", 1))).to_s():
+            swapped = False
+        elif lhs_val == (to_poly(("p", 1)) - to_poly(("p", 0))).to_s():
+            swapped = True
         out[op] = (swapped, final[2] if final is not None and final[0] == "k" else None)
     return out
 
